@@ -4,6 +4,6 @@ Require Import ExtrOcamlBasic.
 Extraction "c07_model.ml" conv vconv iconv data_converter tty_of_code code_of_tty tgt_cty ity_cty
   convert_int_text convert_uint_text get_string_fcn convert_number convert_string convert_float_text tobserve
   round_int flt_bits fprec cwidth
-  fconv spec_fconv
+  fconv spec_fconv fdecode
   spec_conv spec_text spec_text_char spec_text_flt
   N.add Z.of_nat Z.to_nat Z.opp.
